@@ -2,7 +2,7 @@
 //! content of their source) on seeded multi-replica histories. The expected position / range is
 //! computed from the hook dump of each replica (item order incl. tombstones), i.e. exactly where the
 //! anchoring elements are, also when they have been deleted.
-use crate::model::hex;
+use crate::model::{hex, Model};
 use crate::report::{catch, parallel, Report};
 use crate::rng::Rng;
 use crate::sim::*;
@@ -61,7 +61,7 @@ fn follow_redone(vs: &VStore, root: &str, anchor: Option<(u64, u32)>) -> Option<
     }
     Some(cur)
 }
-fn run_case(seed: u64, index: u64, rep: &mut Report, want: &[&str]) {
+fn run_case(seed: u64, index: u64, rep: &mut Report, want: &[&str], md: &mut Model) {
     let mut r = Rng::for_case(seed, 114, index);
     let nrep = r.range(2, 3) as usize;
     // every other case is an "undo / formatting" case: rich text, an undo manager on replica 0 (so that anchors get deleted and
@@ -86,7 +86,7 @@ fn run_case(seed: u64, index: u64, rep: &mut Report, want: &[&str]) {
     let mut subs = vec![];
     // notification: per (replica, quotation) an observer registered as soon as the quotation exists there, the ids it showed after the
     // previous step and the observer's call count at that time
-    let mut watch: std::collections::BTreeMap<(usize, usize), (Arc<AtomicU64>, Option<Vec<(u64, u32)>>, u64, BTreeSet<(u64, u32)>)> = std::collections::BTreeMap::new();
+    let mut watch: std::collections::BTreeMap<(usize, usize), (Arc<AtomicU64>, Option<Vec<(u64, u32)>>, u64, BTreeSet<(u64, u32)>, Vec<((u64, u32), bool)>)> = std::collections::BTreeMap::new();
     for step in 0..steps {
         let i = r.below(nrep as u64) as usize;
         let cand: Vec<usize> = (0..msgs.len()).filter(|m| !delivered[i].contains(m)).collect();
@@ -199,7 +199,12 @@ fn run_case(seed: u64, index: u64, rep: &mut Report, want: &[&str]) {
             for (qi, q) in quotes.iter().enumerate() {
                 let w = match m.get(&txn, &q.key) { Some(Out::YWeakLink(w)) => w, _ => continue };
                 rep.add("quote_dereferences", 1);
-                // ---- observers of a quotation are notified when content inside its range changes
+                // ---- observers of a quotation are notified when content inside its range changes.
+                // Model (Crdt/Links.v): which units are registered for the quotation (LinkSource::materialize, join_linked_range,
+                // delete) and when that set changes, which is when yrs notifies. After every step: (1) the registered set of the
+                // implementation (Store::linked_by, hook dump) must be what the model computes from the set before the step;
+                // (2) if the ids the quotation shows changed, the observer must have been called - unless the model says that no
+                // changed unit can be registered by the neighbour rule (known finding, theorems lk_complete_refuted_*).
                 {
                     let us: Vec<((u64, u32), bool)> = if q.root == ROOT_ARRAY { units_of_root(&vs, ROOT_ARRAY).iter().map(|u| ((u.0, u.1), u.2)).collect() } else { live_values_text(&vs, ROOT_TEXT).iter().map(|u| (u.0, u.1)).collect() };
                     let ids_now: Option<Vec<(u64, u32)>> = {
@@ -210,50 +215,69 @@ fn run_case(seed: u64, index: u64, rep: &mut Report, want: &[&str]) {
                             let hi = match q.end { Some((_, incl)) => if incl { ei + 1 } else { ei }, None => us.len() };
                             Some(if lo < hi { us[lo..hi].iter().filter(|u| u.1).map(|u| u.0).collect() } else { vec![] }) }, _ => None }
                     };
+                    // the item that holds the quotation on this replica, and the units registered for it
+                    let qitem: Option<(u64, u32)> = vs.branches.iter().find(|b| matches!(&b.id, VParent::Root(n) if n == ROOT_MAP)).and_then(|b| b.map.iter().find(|(k, _)| *k == q.key)).and_then(|(_, chain)| chain.last()).map(|it| (it.id.client.get(), it.id.clock));
+                    let real_reg: BTreeSet<(u64, u32)> = match qitem { Some(qi_) => vs.links.iter().filter(|(_, _, qs)| qs.iter().any(|x| (x.client.get(), x.clock) == qi_)).flat_map(|(id, len, _)| (0..*len).map(move |j| (id.client.get(), id.clock + j))).filter(|u| us.iter().any(|x| x.0 == *u)).collect(), None => BTreeSet::new() };
+                    let fmt_units = |us: &Vec<((u64, u32), bool)>| if us.is_empty() { "_".to_string() } else { us.iter().map(|u| format!("{:x}:{:x}{}", (u.0).0, (u.0).1, if u.1 { "+" } else { "-" })).collect::<Vec<_>>().join(",") };
+                    let fmt_ids = |s: &BTreeSet<(u64, u32)>| if s.is_empty() { "_".to_string() } else { s.iter().map(|u| format!("{:x}:{:x}", u.0, u.1)).collect::<Vec<_>>().join(",") };
+                    let fmt_bound = |b: &Option<((u64, u32), bool)>| match b { None => "-".to_string(), Some((id, incl)) => format!("{:x}:{:x},{}", id.0, id.1, if *incl { "i" } else { "e" }) };
+                    let parse_ids = |t: &str| -> BTreeSet<(u64, u32)> { if t == "_" { BTreeSet::new() } else { t.split(',').filter_map(|x| { let mut p = x.split(':'); Some((u64::from_str_radix(p.next()?, 16).ok()?, u32::from_str_radix(p.next()?, 16).ok()?)) }).collect() } };
+                    let bounds_known = ids_now.is_some();
                     match watch.get_mut(&(ri, qi)) {
                         None => {
                             let f = Arc::new(AtomicU64::new(0)); let f2 = f.clone();
                             if q.root == ROOT_ARRAY { let wr: WeakRef<ArrayRef> = WeakRef::from(w.clone()); subs.push(wr.observe(move |_, _| { f2.fetch_add(1, Ordering::SeqCst); })); }
                             else { let wr: WeakRef<TextRef> = WeakRef::from(w.clone()); subs.push(wr.observe(move |_, _| { f2.fetch_add(1, Ordering::SeqCst); })); }
-                            watch.insert((ri, qi), (f, ids_now, 0, BTreeSet::new()));
+                            // what materialize registered: the model's initial set against the implementation's
+                            if bounds_known {
+                                let m = md.ask(&format!("LK init {} {} {}", fmt_units(&us), fmt_bound(&q.start), fmt_bound(&q.end)));
+                                rep.add("quotation_registrations_compared_with_model", 1);
+                                if m.strip_prefix("ok ").map(parse_ids) != Some(real_reg.clone()) { rep.disagree(json!({"kind": "units registered when the quotation is made / arrives", "model": m, "impl": fmt_ids(&real_reg), "units": fmt_units(&us), "range": q.range, "replica": ri, "case": {"stream": 114, "index": index, "seed": seed}})); }
+                            }
+                            watch.insert((ri, qi), (f, ids_now, 0, real_reg, us.clone()));
                         }
-                        Some((f, before, seen, unreg)) => {
+                        Some((f, before, seen, reg_before, us_before)) => {
                             let calls = f.load(Ordering::SeqCst);
-                            if let (Some(b), Some(n)) = (before.as_ref(), ids_now.as_ref()) {
-                                if b != n {
-                                    rep.add("quoted_range_changes_observed", 1);
-                                    // yrs registers a new element for a quotation through its neighbours (join_linked_range): both neighbours
-                                    // registered; or the left one registered and the end of the range exclusive; or the right one registered and
-                                    // the new element directly behind the exclusive start boundary; or (21e026d) a registered neighbour on one
-                                    // side, no element at all on the other and no bound there. A registered element is a live element of the
-                                    // range that joined it this way or was in it when the quotation was made / arrived (deletion unregisters).
-                                    // Elements that are shown but cannot be registered by this rule are the known finding; they are remembered.
-                                    let registered = |u: Option<&((u64, u32), bool)>, unreg: &BTreeSet<(u64, u32)>| -> bool { match u { Some((id, live)) => *live && b.contains(id) && !unreg.contains(id), None => false } };
-                                    let added: Vec<(u64, u32)> = n.iter().filter(|x| !b.contains(x)).cloned().collect();
-                                    let removed: Vec<(u64, u32)> = b.iter().filter(|x| !n.contains(x)).cloned().collect();
-                                    let mut must_notify = removed.iter().any(|x| !unreg.contains(x));
-                                    let mut k = 0;
-                                    while k < us.len() {
-                                        if !added.contains(&us[k].0) { k += 1; continue; }
-                                        let start_k = k; while k < us.len() && (added.contains(&us[k].0)) { k += 1; }
-                                        let (l, r) = (if start_k > 0 { us.get(start_k - 1) } else { None }, us.get(k));
-                                        let (lreg, rreg) = (registered(l, unreg), registered(r, unreg));
-                                        let links = (lreg && rreg)
-                                            || (lreg && !rreg && r.is_some() && matches!(q.end, Some((_, false))))
-                                            || (rreg && !lreg && matches!(q.start, Some((id, false)) if l.map(|x| x.0) == Some(id)))
-                                            || (lreg && r.is_none() && q.end.is_none())
-                                            || (rreg && l.is_none() && q.start.is_none());
-                                        if links { must_notify = true; } else { for x in &us[start_k..k] { unreg.insert(x.0); } }
-                                    }
-                                    for x in &removed { unreg.remove(x); }
-                                    if calls == *seen {
-                                        let (adds, rems): (Vec<String>, Vec<String>) = (added.iter().map(|x| format!("{:x}:{:x}", x.0, x.1)).collect(), removed.iter().map(|x| format!("{:x}:{:x}", x.0, x.1)).collect());
-                                        let class = if !must_notify { "quotation-misses-elements-without-a-registered-neighbour" } else if removed.is_empty() { "quotation-observer-not-notified-of-an-insertion-inside-the-range" } else if added.is_empty() { "quotation-observer-not-notified-of-a-removal-inside-the-range" } else { "quotation-observer-not-notified-of-a-change-inside-the-range" };
-                                        fails.push(json!({"property": "C20", "class": class, "quote": q.key, "range": q.range, "root": q.root, "replica": ri, "step": step, "acting_replica": i, "added": adds, "removed": rems}));
+                            if bounds_known && (*us_before != us || *reg_before != real_reg) {
+                                let m = md.ask(&format!("LK step {} {} {} {} {}", fmt_units(us_before), fmt_ids(reg_before), fmt_units(&us), fmt_bound(&q.start), fmt_bound(&q.end)));
+                                let mut it = m.split(' ');
+                                let (ok, verdict, next) = (it.next() == Some("ok"), it.next().unwrap_or(""), it.next().unwrap_or("_"));
+                                rep.add("quotation_steps_compared_with_model", 1);
+                                // (the model's next set is exact for steps that are one insertion or deletions; a step with several insertions
+                                //  is compared on the units that existed before it)
+                                let added_runs = { let mut n = 0; let mut prev = false; for u in us.iter() { let a = !us_before.iter().any(|x| x.0 == u.0); if a && !prev { n += 1; } prev = a; } n };
+                                let model_next = parse_ids(next);
+                                let same = if added_runs <= 1 { model_next == real_reg } else { model_next.iter().filter(|u| us_before.iter().any(|x| x.0 == **u)).eq(real_reg.iter().filter(|u| us_before.iter().any(|x| x.0 == **u))) };
+                                // a transaction that removes and inserts: the model's single step registers the insertions first; the other
+                                // order (removals, then insertions) is the same function applied twice
+                                let same = same || {
+                                    let mid: Vec<((u64, u32), bool)> = us_before.iter().map(|u| (u.0, u.1 && us.iter().any(|x| x.0 == u.0 && x.1))).collect();
+                                    if mid != *us_before {
+                                        let m1 = md.ask(&format!("LK step {} {} {} {} {}", fmt_units(us_before), fmt_ids(reg_before), fmt_units(&mid), fmt_bound(&q.start), fmt_bound(&q.end)));
+                                        let r1 = parse_ids(m1.split(' ').nth(2).unwrap_or("_"));
+                                        let m2 = md.ask(&format!("LK step {} {} {} {} {}", fmt_units(&mid), fmt_ids(&r1), fmt_units(&us), fmt_bound(&q.start), fmt_bound(&q.end)));
+                                        let r2 = parse_ids(m2.split(' ').nth(2).unwrap_or("_"));
+                                        rep.add("quotation_steps_compared_in_the_other_order", 1);
+                                        if added_runs <= 1 { r2 == real_reg } else { r2.iter().filter(|u| us_before.iter().any(|x| x.0 == **u)).eq(real_reg.iter().filter(|u| us_before.iter().any(|x| x.0 == **u))) }
+                                    } else { false }
+                                };
+                                // a unit that arrives and is a tombstone at the end of the same step was either integrated with collected content
+                                // (never registered, and no help to its neighbours) or live and deleted by the same update: the dump cannot tell
+                                let added_dead = us.iter().any(|u| !u.1 && !us_before.iter().any(|x| x.0 == u.0));
+                                if added_dead { rep.add("quotation_steps_with_units_arriving_deleted_not_compared", 1); }
+                                if !ok || (!same && !added_dead) { rep.disagree(json!({"kind": "units registered for a quotation after a step", "model": m, "impl": fmt_ids(&real_reg), "before": fmt_units(us_before), "registered_before": fmt_ids(reg_before), "after": fmt_units(&us), "range": q.range, "replica": ri, "step": step, "case": {"stream": 114, "index": index, "seed": seed}})); }
+                                if let (Some(b), Some(n)) = (before.as_ref(), ids_now.as_ref()) {
+                                    if b != n {
+                                        rep.add("quoted_range_changes_observed", 1);
+                                        if calls == *seen {
+                                            let (adds, rems): (Vec<String>, Vec<String>) = (n.iter().filter(|x| !b.contains(x)).map(|x| format!("{:x}:{:x}", x.0, x.1)).collect(), b.iter().filter(|x| !n.contains(x)).map(|x| format!("{:x}:{:x}", x.0, x.1)).collect());
+                                            let class = if verdict == "silent" { "quotation-misses-elements-without-a-registered-neighbour" } else if rems.is_empty() { "quotation-observer-not-notified-of-an-insertion-inside-the-range" } else if adds.is_empty() { "quotation-observer-not-notified-of-a-removal-inside-the-range" } else { "quotation-observer-not-notified-of-a-change-inside-the-range" };
+                                            fails.push(json!({"property": "C20", "class": class, "quote": q.key, "range": q.range, "root": q.root, "replica": ri, "step": step, "acting_replica": i, "added": adds, "removed": rems, "model": m}));
+                                        }
                                     }
                                 }
                             }
-                            *before = ids_now; *seen = calls;
+                            *before = ids_now; *seen = calls; *reg_before = real_reg; *us_before = us;
                         }
                     }
                 }
@@ -317,8 +341,9 @@ pub fn run(prop: &str, tier: &str, seed: u64, workers: usize) -> Report {
     let want: Vec<&str> = vec![prop];
     let mut total = parallel(workers, |w, nw| {
         let mut rep = Report::default();
+        let mut md = Model::spawn();
         for ci in 0..n { if ci as usize % nw != w { continue; }
-            match catch(std::panic::AssertUnwindSafe(|| { let mut r2 = Report::default(); run_case(seed, ci, &mut r2, &want); r2 })) {
+            match catch(std::panic::AssertUnwindSafe(|| { let mut r2 = Report::default(); run_case(seed, ci, &mut r2, &want, &mut md); r2 })) {
                 Ok(r2) => rep.merge(r2),
                 Err(e) => { rep.evaluations += 1; rep.fail(json!({"property": prop, "class": "panic", "error": e, "case": {"stream": 114, "index": ci, "seed": seed}})); }
             }
